@@ -635,15 +635,78 @@ func c06ResourceBody(x *mc.Exec, order bool) {
 	}
 }
 
+// c06Collection: every member of a collection payload must be read as if it
+// were alone (fields absent from ITS object hold their zero value, whatever the
+// members before it carried).
+func c06Collection(x *mc.Exec) {
+	soft := x.Choose(2, "impl") == 0
+	d := TypeD{Name: "t", Attrs: []AttrD{{"s", kStr}, {"i", Kind{j.AttrTypeInt8, false}}, {"b", Kind{j.AttrTypeBool, true}}},
+		Rels: []RelD{{"one", true, "u", ""}, {"many", false, "u", ""}}}
+	schema := BuildSchema([]TypeD{d, {Name: "u", Attrs: []AttrD{{"z", kStr}}}}, []bool{soft, !soft})
+	variants := []string{
+		`{"type":"t","id":"1","attributes":{"s":"v","i":5,"b":true},"relationships":{"one":{"data":{"type":"u","id":"o1"}},"many":{"data":[{"type":"u","id":"p1"}]}}}`,
+		`{"type":"t","id":"2"}`,
+		`{"type":"t","id":"3","attributes":{"i":-7}}`,
+		`{"type":"t","id":"4","relationships":{"many":{"data":[]},"one":{"data":null}}}`,
+		`{"type":"u","id":"5","attributes":{"z":"q"}}`,
+		`{"type":"t","attributes":{"b":null}}`,
+	}
+	n := 2 + x.Choose(2, "members")
+	var members []string
+	for i := 0; i < n; i++ {
+		members = append(members, variants[x.Choose(len(variants), "member")])
+	}
+	payload := "[" + strings.Join(members, ",") + "]"
+	x.Render(payload)
+	x.R.Sample("collection", payload)
+	x.R.Mark("nontrivial", mc.Hash(payload, soft))
+	for _, via := range []string{"UnmarshalCollection", "UnmarshalDocument"} {
+		var col j.Collection
+		var err error
+		p := Try(func() {
+			if via == "UnmarshalCollection" {
+				col, err = j.UnmarshalCollection([]byte(payload), schema)
+			} else {
+				var doc *j.Document
+				doc, err = j.UnmarshalDocument([]byte(`{"data":`+payload+`}`), schema)
+				if doc != nil {
+					col, _ = doc.Data.(j.Collection)
+				}
+			}
+		})
+		x.R.Add("transitions", 1)
+		sig := "C06:collection:" + via
+		if p != "" || err != nil || col == nil {
+			x.Fail(sig+":rejected-valid", "%s(%s): panic %q error %v", via, payload, p, err)
+			continue
+		}
+		if col.Len() != n {
+			x.Fail(sig+":length", "%s(%s) has %d members", via, payload, col.Len())
+			continue
+		}
+		for i := 0; i < n; i++ {
+			alone, err := j.UnmarshalResource([]byte(members[i]), schema)
+			if err != nil {
+				x.Fail(sig+":member-alone", "member %s alone is rejected: %v", members[i], err)
+				continue
+			}
+			if d := CompareRes(alone, col.At(i), nil); d != nil {
+				x.Fail(sig+":member-"+d.What, "%s(%s): member %d differs from the same object read alone: %s", via, payload, i, d.Msg)
+			}
+		}
+	}
+}
+
 func init() {
 	Register(&Prop{
 		ID: "C06",
-		Rule: "Engine A, all choices Full: (a) 20 integer kinds x every integer literal in [-70000,70000] (exhaustive for 8/16-bit kinds and their out-of-range neighbourhood) + +-2^k+{-2..2} (k<=70) + +-10^k+{-1,0,1} (k<=21) + fractions/exponents/-0/null/true/false/strings/arrays, each through Attr.UnmarshalToType and through UnmarshalResource (soft and struct-backed); (b) string/bool/time/bytes kinds x alphabet in 3 JSON encodings, RFC3339 offsets x precisions, near-miss invalid times, canonical and non-canonical base64, wrong JSON kinds; (c) whole payloads: 3^5 attribute presence/value combinations x 5 x 4 forms of two to-one relationships x 7 to-many forms x 3 ids x 2 implementations, re-marshaled and re-read; a reduced product (2 attributes) under every iteration order of one member map inside UnmarshalResource (deviation bound 1). Oracle: accepted => stored value equals the math/big / own-unescaper / time.Parse / encoding/base64 reading of the literal; non-trivial = literal that is out of range, fractional, of the wrong kind, or a whole payload",
+		Rule: "Engine A, all choices Full: (a) 20 integer kinds x every integer literal in [-70000,70000] (exhaustive for 8/16-bit kinds and their out-of-range neighbourhood) + +-2^k+{-2..2} (k<=70) + +-10^k+{-1,0,1} (k<=21) + fractions/exponents/-0/null/true/false/strings/arrays, each through Attr.UnmarshalToType and through UnmarshalResource (soft and struct-backed); (b) string/bool/time/bytes kinds x alphabet in 3 JSON encodings, RFC3339 offsets x precisions, near-miss invalid times, canonical and non-canonical base64, wrong JSON kinds; (c) whole payloads: 3^5 attribute presence/value combinations x 5 x 4 forms of two to-one relationships x 7 to-many forms x 3 ids x 2 implementations, re-marshaled and re-read; a reduced product (2 attributes) under every iteration order of one member map inside UnmarshalResource (deviation bound 1). (d) collections of 2-3 members over 6 member variants (full, minimal, partial, empty linkage, other type, no id) through UnmarshalCollection and UnmarshalDocument, each member compared with the same object read alone. Oracle: accepted => stored value equals the math/big / own-unescaper / time.Parse / encoding/base64 reading of the literal; non-trivial = literal that is out of range, fractional, of the wrong kind, or a whole payload",
 		Assumptions: []string{"no completeness demand: exotic spellings may be rejected; only 'accepted => exact' is judged", "a panic counts as not accepted here (panic freedom is C05)"},
 		Harnesses: []Harness{
 			{Name: "C06/int", Body: c06Int, ShardDepth: 1},
 			{Name: "C06/other", Body: c06Other, ShardDepth: 1},
 			{Name: "C06/resource", Body: c06Resource},
+			{Name: "C06/collection", Body: c06Collection},
 			{Name: "C06/resource-member-order", Body: c06ResourceOrder, Dev: func() int { return 1 }},
 		},
 	})
